@@ -58,6 +58,8 @@ RunVerdict(c, rn) ==
              IF ~Y!WallOK(g, s0) THEN << "malformed: initial state violates the wall conditions", "" >>
              ELSE IF inexact # "" THEN << "", inexact >>
              ELSE IF ~Y!EnergyBalanced(g, s1, s2) THEN << "energy: discrete energy changed over a lossless step", "" >>
+             \* first step: H one half-step before the initial state is DEFINED by the documented H update (Yee!Prime)
+             ELSE IF ~Y!EnergyBalanced(g, Y!Prime(g, s0), s1) THEN << "energy: discrete energy changed over the first step from a state satisfying the wall conditions", "" >>
              ELSE IF ~(Y!SameEH(Y!Forward(g, s0, 0), s1) /\ Y!SameEH(Y!Forward(g, s1, 1), s2))
                   THEN << "", "model: next state differs from Yee!Forward" >>
              ELSE << "", "" >>
